@@ -8,7 +8,7 @@ from vlib.harness import prop, sub
 
 prop("C19",
      rule="Hypothesis-generated real/complex data (white, AR-coloured and integer noise, tones in noise from 0.2 to 3 "
-          "sigma and noise-free, trends, constants, 1e6 dynamic range), N 16..1024 (dense 16..96), NW in {2,2.5,3,4} "
+          "sigma and noise-free, trends, constants, 1e6 dynamic range), N 16..1024 (dense 16..96), NW in {1.5,2,2.5,3,4,6,7.5,8} "
           "(int or float typed), k in 1..2NW or the default, NFFT >= N (N, N+1, next prime, 2N, 2N+1, power of two, "
           "anything up to 3N, the default), method in {unity, eigen, adapt}; tapers computed by pmtm or precomputed with "
           "dpss.  Non-trivial: k >= 2 and (NFFT > N or complex data).  Distinct = SHA-1 of the case descriptor.",
@@ -34,7 +34,7 @@ prop("C19",
                   "all-zero data is not generated (sigma^2 = 0 makes Thomson's formula 0/0)"],
      title="Multitaper estimates are weighted means of tapered periodograms")
 
-NWS = [2.5, 3, 4, 2, 3.0, 4.0, 2.0]
+NWS = [2.5, 3, 4, 2, 3.0, 4.0, 2.0, 6, 7.5, 8, 1.5]    # the statement does not bound NW; large NW: leading eigenvalues all 1 - O(1e-16)
 
 
 # --------------------------------------------------------------------------
@@ -69,7 +69,7 @@ def mt_case(draw, methods=("unity", "eigen", "adapt"), dtype=None, class_level=F
     cplx = draw(st.booleans()) if dtype is None else (dtype == "complex")
     x = draw(_data(cplx))
     N = x["n"]
-    NW = draw(st.sampled_from(NWS))
+    NW = draw(st.sampled_from([v for v in NWS if 2 * v < N]))      # dpss requires NW < N/2
     kmode = draw(st.sampled_from(["any", "any", "any", "max", "default"]))
     if kmode == "any":
         k = draw(st.sampled_from(list(range(kmin, int(2 * NW) + 1))))
@@ -202,7 +202,15 @@ def _adapt_body(ctx, case):
     sig2 = float(np.mean(np.abs(x) ** 2))
     j = int(np.argmin(lam))
     aj = sig2 * (1.0 - lam[j])
-    ctx.check(aj > 0, "least concentrated taper has eigenvalue %r >= 1" % lam[j])
+    if float(lam.max()) > 1.0:
+        # a concentration ratio above 1 is C18's clause; Thomson's formula has a pole there and S* cannot be recovered
+        ctx.cls("eigenvalue > 1 returned by dpss")
+        return
+    if aj <= 1e-13 * sig2:
+        # every taper is fully concentrated to working precision (large NW, small k): 1 - lambda_i = 0 and
+        # Thomson's formula degenerates to w_i = 1/lambda_i wherever the spectrum is not exactly zero
+        ctx.cls("all tapers fully concentrated (1-lambda < 1e-13)")
+        return
     bj = np.sqrt(w[:, j] / lam[j])
     u = 1.0 - bj * lam[j]                    # = a_j / (lambda_j S + a_j)  in (0, 1]
     with np.errstate(divide="ignore", invalid="ignore"):
